@@ -146,6 +146,8 @@ def shaped_families(rng, tabs):
     merge   SQL-level extend merging: chains the generator may merge, chains it must keep apart
     prune   column pruning through `using`: columns / aggregates / window order and partition columns nobody uses downstream
     share   a sub-pipeline shared by both sides of a join / concat (WITH / CTE sequencing)
+    wkey    the order / partition column of a window is (re)defined by the extend directly below it
+    ccol    concat_rows of two pipelines whose SQL steps list the columns in different orders (grouped project, rename, map, join, order_rows)
     join    joins of sub-pipelines, all four types, unmatched rows on both sides, coalesced common columns
     order   order_rows with limit under further steps; ties"""
     t1, t2 = tabs[0], tabs[1]
@@ -212,13 +214,50 @@ def shaped_families(rng, tabs):
     od.append({"op": "project", "src": o, "ops": {"n": "_size()", "m": "uid.max()"}, "group_by": []})
     od.append({"op": "order_rows", "src": T1, "columns": [k0], "reverse": [], "limit": None})            # ties, multiset compared
     od.append({"op": "extend", "src": T1, "ops": {"c": "_size()", "mx": "uid.max()"}, "partition_by": [k0], "order_by": [], "reverse": []})
+    # --- wkey: the ORDER / PARTITION column of a window is (re)defined by the extend immediately below it (the SQL generator must
+    #     not merge the two into one SELECT: OVER (ORDER BY k) would read the OLD k)
+    wk = F["wkey"] = []
+    val = rng.choice([c for c in n1 if c != a] or ["uid"])
+    fn = rng.choice(["cumsum", "cummax", "cummin"])
+    wk.append({"op": "extend", "src": {"op": "extend", "src": T1, "ops": {a: f"0 - {a}"}}, "ops": {"r": f"{val}.{fn}()"}, "partition_by": [], "order_by": [a, "uid"], "reverse": []})
+    wk.append({"op": "extend", "src": {"op": "extend", "src": T1, "ops": {"uid": "0 - uid"}}, "ops": {"r": f"{a}.{fn}()", "n": "_row_number()"}, "partition_by": [], "order_by": ["uid"], "reverse": []})
+    wk.append({"op": "extend", "src": {"op": "extend", "src": T1, "ops": {"kk": "0 - uid"}}, "ops": {"r": f"{a}.shift()"}, "partition_by": [], "order_by": ["kk"], "reverse": rng.choice([[], ["kk"]])})
+    wk.append({"op": "extend", "src": {"op": "extend", "src": T1, "ops": {"uid": "10 - uid", "z": f"{a} + 1"}}, "ops": {"n": "_row_number()"}, "partition_by": [k0], "order_by": ["uid"], "reverse": []})
+    wk.append({"op": "extend", "src": {"op": "extend", "src": T1, "ops": {k0: "(uid > 1).if_else(1, 0)"}}, "ops": {"c": "_size()", "mx": "uid.max()"}, "partition_by": [k0], "order_by": [], "reverse": []})
+    wk.append({"op": "extend", "src": {"op": "extend", "src": T1, "ops": {"pp": "(uid > 2).if_else(1, 0)"}}, "ops": {"s": "uid.cumsum()"}, "partition_by": ["pp"], "order_by": ["uid"], "reverse": []})
+    # --- ccol: concat_rows whose operands are PIPELINES that list their columns in different internal orders (UNION ALL pairs columns
+    #     by position): a grouped project (aggregates first), rename / map (renamed first), join (coalesced first), order_rows
+    cc = F["ccol"] = []
+    agg = rng.choice(["sum", "max", "min", "count"])
+    plain = {"op": "select_columns", "src": {"op": "extend", "src": T1, "ops": {"v": f"{a} + 1"}}, "columns": [k0, "v"]}
+    plain2 = {"op": "select_columns", "src": {"op": "extend", "src": T1, "ops": {"v": f"{a} * 2"}}, "columns": ["v", k0]}
+    others = [
+        {"op": "project", "src": T1, "ops": {"v": f"{a}.{agg}()"}, "group_by": [k0]},
+        {"op": "project", "src": {"op": "select_rows", "src": T1, "expr": "uid >= 1"}, "ops": {"v": f"{a}.{agg}()"}, "group_by": [k0]},
+        {"op": "rename_columns", "src": {"op": "select_columns", "src": T1, "columns": [k0, "uid"]}, "map": {"v": "uid"}},
+        {"op": "map_columns", "src": {"op": "select_columns", "src": T1, "columns": ["uid", k0]}, "map": {"uid": "v"}},
+        {"op": "order_rows", "src": {"op": "select_columns", "src": {"op": "extend", "src": T1, "ops": {"v": "uid + 0"}}, "columns": ["v", k0]}, "columns": ["v"], "reverse": [], "limit": None},
+        {"op": "select_columns", "src": {"op": "natural_join", "src": {"op": "select_columns", "src": T1, "columns": ["uid", k0]},
+                                         "b": {"op": "rename_columns", "src": {"op": "select_columns", "src": T1, "columns": ["uid"]}, "map": {"v": "uid"}}, "on": [], "jointype": "CROSS"},
+         "columns": [k0, "v"]} if False else
+        {"op": "drop_columns", "src": {"op": "natural_join", "src": {"op": "select_columns", "src": T1, "columns": ["uid", k0]},
+                                       "b": {"op": "extend", "src": {"op": "select_columns", "src": T1, "columns": ["uid"]}, "ops": {"v": "uid * 3"}}, "on": ["uid"], "jointype": "LEFT"},
+         "columns": ["uid"]},
+    ]
+    for o in others:
+        idc = rng.choice([None, "src"])
+        first, second = (plain, o) if rng.random() < 0.5 else (o, rng.choice([plain, plain2]))
+        cc.append({"op": "concat_rows", "src": first, "b": second, "id_column": idc, "a_name": "l", "b_name": "r"})
+    cc.append({"op": "concat_rows", "src": others[0], "b": others[2], "id_column": None, "a_name": "l", "b_name": "r"})
+    cc.append({"op": "project", "src": {"op": "concat_rows", "src": plain, "b": others[1], "id_column": "src", "a_name": "l", "b_name": "r"},
+               "ops": {"t": "v.max()", "n": "_size()"}, "group_by": ["src"]})
     return F
 
 
-def shaped_scripts(rng, tabs, n=4):
-    """one script of each of `n` families (the join and prune families always, when they apply)"""
+def shaped_scripts(rng, tabs, n=5):
+    """one script of each of `n` families (join, prune, wkey and ccol always, when they apply)"""
     F = {k: v for k, v in shaped_families(rng, tabs).items() if v}
-    fams = [f for f in ("join", "prune") if f in F]
+    fams = [f for f in ("join", "prune", "wkey", "ccol") if f in F]
     rest = [f for f in F if f not in fams]
     rng.shuffle(rest)
     return [rng.choice(F[f]) for f in (fams + rest)[:n]]
